@@ -36,6 +36,7 @@ class Ctx:
 
     def __init__(self):
         self.counters = Counter()
+        self.nontrivial = None   # a check may decide non-triviality from what actually happened in the run
 
     def count(self, label, n=1):
         self.counters[label] += n
@@ -210,7 +211,10 @@ class _ShardState:
         self._account(case)
 
     def _account(self, case):
-        nt = bool(self.clause.nontrivial(case))
+        nt = self.ctx.nontrivial
+        self.ctx.nontrivial = None
+        if nt is None:
+            nt = bool(self.clause.nontrivial(case))
         if nt:
             self.keys.add(digest8(self.clause.key(case)))
         if self.clause.classes is not None:
